@@ -14,7 +14,10 @@ TITLE = '!del / list replacement exact, !merge element-wise, !clear empties'
 RULE = ('older tree (plain mappings/lists/scalars, optionally !call nodes as entries) x newer document holding one focus node at depth 0-3 '
         'whose path follows existing keys (key names biased to coincide with ancestor key names): (a) !del mapping or list focus without '
         'priorities -> exact content, pruned !call nodes never run; (b) same with !force older leaves or a !weak focus -> exactly the strictly '
-        'higher-priority entries survive; (c) !merge focus on mapping/list -> key-/index-wise; (d) !clear / value-less !del. '
+        'higher-priority entries survive; (c) !merge focus on mapping/list -> key-/index-wise, half of them shaped after the older subtree; '
+        '(d) !clear / value-less !del; (e) a list with !force elements replaced by a newer list -> protected elements and un-outranked newer '
+        'elements all present (validity predicate; open finding list-element-survivor-shift). In (a) and (c) the focus may also meet an older '
+        'list or scalar. '
         'non-trivial = focus depth >=1, or a protected survivor, or a key coinciding with an ancestor key; distinct = hash of the case')
 BUDGET = {'quick': (4, 600), 'thorough': (16, 10000)}
 ASSUMPTIONS = ['focus paths never run through or end at a function node (Call <- dict updates arguments by design)',
@@ -135,11 +138,18 @@ def _wrap(path, node, extras=None):
 
 @st.composite
 def _case(draw):
-    mode = draw(st.sampled_from(['a', 'a', 'b', 'b', 'c', 'd']))
+    mode = draw(st.sampled_from(['a', 'a', 'a', 'b', 'b', 'b', 'c', 'c', 'd', 'd', 'e']))
     calls = [0] if mode == 'a' else None
     older = draw(_older(0, calls, protect=(mode == 'b')))
     path = draw(_focus_path(older, end_any=mode in ('a', 'c')))
     case = {'mode': mode, 'older': older, 'path': path}
+    if mode == 'e':
+        # a list of distinct scalars, some elements !force, replaced by a newer list (directly, or inside a !del mapping)
+        n_old = draw(st.integers(1, 4))
+        case['old_list'] = [[i + 1, draw(st.sampled_from([0, 0, 1]))] for i in range(n_old)]
+        case['new_list'] = [10 + i for i in range(draw(st.integers(0, 5)))]
+        case['via'] = draw(st.sampled_from(['list', 'list', 'delmap'])) if path else 'list'
+        return case
     if mode in ('a', 'b'):
         # the focus must be a mapping when it sits at depth 0 (a document root is a mapping)
         weak_focus = mode == 'b' and draw(st.integers(0, 2)) == 0
@@ -411,6 +421,8 @@ def run_case(case):
     if case.get('mid'):
         labels.add('three-stage-history')
     nontrivial = len(path) >= 1
+    if mode == 'e':
+        return _run_e(case, labels)
     if mode in ('a', 'b', 'c'):
         focus = case['focus']
         met = _get(older, path)['t']
@@ -535,8 +547,82 @@ def run_case(case):
     return Outcome(nontrivial=nontrivial, labels=sorted(labels))
 
 
+def _shift_model(old_list, new_list, via):
+    """What the implementation is *known* to do with protected list elements (open finding list-element-survivor-shift):
+    newer elements outranked at their index are dropped and the rest move down; unprotected older elements are dropped and
+    the protected ones move down; what is left is merged index-wise.  Used only to attribute a violation to the finding."""
+    old2 = [(v, p) for v, p in old_list if p > 0]
+    if via == 'delmap':
+        # the enclosing !del mapping has pruned the older list already when the lists meet
+        new2 = [v for i, v in enumerate(new_list) if not i < len(old2)]
+    else:
+        new2 = [v for i, v in enumerate(new_list) if not (i < len(old_list) and old_list[i][1] > 0)]
+    out = []
+    for j in range(max(len(old2), len(new2))):
+        if j < len(old2):
+            out.append(old2[j][0])          # protected: wins against any newer element
+        else:
+            out.append(new2[j])
+    return out
+
+
+def _run_e(case, labels):
+    import copy
+    from .. import probes
+    path, old_list, new_list, via = case['path'], case['old_list'], case['new_list'], case['via']
+    older = copy.deepcopy(case['older'])
+    holder = _get(older, path)
+    holder['items'] = [it for it in holder['items'] if it[0] != 'L'] + [['L', tdoc.sq([tdoc.sc(v, **({'prio': 1} if p else {})) for v, p in old_list], flow=True)]]
+    lst = tdoc.sq([tdoc.sc(v) for v in new_list], flow=True)
+    if via == 'list':
+        newer = _wrap(path + ['L'], lst)
+    else:
+        newer = _wrap(path, tdoc.mp([('L', lst)], flow=False, **{'del': True}))
+    t_old, t_new = tdoc.render(older), tdoc.render(newer)
+    src = f'\nolder:\n{t_old}\nnewer:\n{t_new}'
+    probes.install()
+    probes.counters['prefilter_drops'] = probes.counters['partial_list_prune'] = 0
+    status, got = _build([t_old, t_new])
+    if status != 'ok':
+        raise Violation(f'C04e: build failed: {type(got).__name__}: {got}{src}')
+    old_ev = ev(older)
+    protected = [v for v, p in old_list if p > 0]
+    must_new = [v for i, v in enumerate(new_list) if not (i < len(old_list) and old_list[i][1] > 0)]
+    may_new = [v for v in new_list if v not in must_new]
+    got_at = got
+    try:
+        for k in path + ['L']:
+            got_at = got_at[k]
+    except (KeyError, TypeError, IndexError):
+        got_at = None
+    # everything around the list: exactly as for any other replacement
+    frame_expected = replace_at(old_ev, path + ['L'], 'LIST') if via == 'list' else replace_at(old_ev, path, {'L': 'LIST'})
+    frame_got = replace_at(got, path + ['L'], 'LIST') if got_at is not None else got
+    labels.add('e-via-' + via)
+    labels.add('e-protected=%d' % min(len(protected), 2))
+    nontrivial = bool(protected)
+    ok = (isinstance(got_at, list) and O.canon_unordered(frame_got) == O.canon_unordered(frame_expected)
+          and all(type(x) is int for x in got_at) and len(set(got_at)) == len(got_at)
+          and set(protected) <= set(got_at) and set(must_new) <= set(got_at)
+          and set(got_at) <= set(protected) | set(must_new) | set(may_new))
+    if not ok:
+        shifted = probes.counters['prefilter_drops'] or probes.counters['partial_list_prune']
+        fid = None
+        if (protected and shifted and isinstance(got_at, list) and got_at == _shift_model(old_list, new_list, via)
+                and O.canon_unordered(frame_got) == O.canon_unordered(frame_expected)):
+            fid = 'list-element-survivor-shift'
+        raise Violation(f'C04e: list {[v for v, _ in old_list]} with !force elements {protected} replaced by {new_list}: the result must hold the protected '
+                        f'older elements, every newer element that is not outranked at its index ({must_new}) and nothing else of the older list; '
+                        f'got {got_at!r} (whole config {got!r}){src}', finding=fid)
+    if protected:
+        labels.add('e-protected-elements-and-newer-content-both-present')
+    return Outcome(nontrivial=nontrivial, labels=sorted(labels))
+
+
 def sample_repr(case):
     out = {'mode': case['mode'], 'path': case['path'], 'older': tdoc.render(case['older'])}
+    if case['mode'] == 'e':
+        out.update(old_list=case['old_list'], new_list=case['new_list'], via=case['via'])
     if 'focus' in case:
         out['newer'] = tdoc.render(_wrap(case['path'], case['focus']))
     return out
